@@ -203,7 +203,8 @@ class G:
         name = self.pick(["BranchExecuteSub", "BranchSum"])
         self.n_op += 1
         nargs = T.OPS_BRANCH[name]
-        args = [{"t": "int", "v": 200000 + self.n_op}] + [self.integer_like() for _ in range(nargs - 1)]
+        # (strings too: the decompiler prints a string with line breaks over several lines - a multi-line header)
+        args = [{"t": "int", "v": 200000 + self.n_op}] + [self.string() if self.b(1, 4) else self.integer_like() for _ in range(nargs - 1)]
         return {"c": "opn", "op": {"k": "op", "name": name, "args": args, "ctx": None}}
 
     # -- statements
